@@ -149,6 +149,28 @@ def tight_families(draw):
 
 
 @st.composite
+def tight_disturbed(draw):
+    """LPT's tight family for 2-4 bins (5, 7, 9 items), scaled by up to 10^12 and then disturbed by a few units per item: instances that
+    sit on the guarantee (a disturbance moves them just inside or leaves them on it), at magnitudes where sums differ by relative
+    10^-9 ... 10^-13.  Optimum from the exhaustive oracle."""
+    k = draw(st.integers(2, 4))
+    c = draw(st.sampled_from([1, 10, 10 ** 3, 10 ** 6, 10 ** 9, 10 ** 12, 2 ** 40]))
+    vals = [v for i in range(k + 1, 2 * k) for v in (i, i)] + [k, k, k]
+    ds = S.splitmix(draw(st.integers(0, 2 ** 40)), len(vals), -3, 3)
+    if draw(st.integers(0, 3)) == 0:
+        ds = [0] * len(vals)
+    vals = [max(0, v * c + d) for v, d in zip(vals, ds)]
+    vals = list(draw(st.permutations(vals)))
+    alg = draw(st.sampled_from(["greedy", "greedy", "greedy", "kk", "multifit"]))
+    case = {"alg": alg, "values": vals, "numbins": k, "pres": draw(st.sampled_from(PRES)), "nseed": draw(st.integers(0, 5)),
+            "profile": "tight-lpt-disturbed"}
+    if alg == "multifit":
+        case["opts"] = {"iterations": draw(st.sampled_from([1, 2, 3, 5, 8, 10]))}
+        case["values"] = [min(v, 2 ** 33) for v in vals]          # multifit bisects on floats: keep headroom
+    return case
+
+
+@st.composite
 def repeated_values_cases(draw):
     """4-10 items drawn from a few small values (whole rounds of equal items, ties between bins at every step): cheap, so many cases."""
     alg = draw(st.sampled_from(["greedy", "greedy", "greedy", "kk", "kk", "kk", "multifit", "roundrobin"]))
@@ -204,6 +226,10 @@ def legs(tier):
             "hypothesis: 2-10 bins of equal sum S cut into 1-30 random parts (up to ~300 items, shuffled / ascending / as built): "
             "optimum = S by construction; same bounds and rule",
             strategy=planted_large(), n_quick=1000, n_thorough=20000, valid=valid, shrink=shrink, floor=0.1),
+        Leg("tight-families-disturbed", evaluate,
+            "hypothesis: LPT's tight family for 2-4 bins scaled by 1 ... 10^12 and disturbed by -3..3 per item (instances on or just inside "
+            "the guarantee, sums that differ by relative 10^-9 ... 10^-13); optimum from the exhaustive oracle; same bounds and rule",
+            strategy=tight_disturbed(), n_quick=1500, n_thorough=30000, valid=valid, shrink=shrink, floor=0.1),
         Leg("tight-families", evaluate,
             "hypothesis: LPT's tight family for k = 2..12 and multifit's 13-bin docstring instance, scaled by 1..1000 and permuted; "
             "optimum known by construction; same bounds and rule",
